@@ -33,7 +33,7 @@ pub struct Replay {
 
 impl Replay {
     pub fn write(&self, prop: &str, key: &str, message: &str) -> PathBuf {
-        let dir = verif_root().join("replays");
+        let dir = out_root().join("replays");
         let _ = std::fs::create_dir_all(&dir);
         let dg = digest_hex(&[prop.as_bytes(), self.engine.as_bytes(), &self.config, &self.case]);
         let path = dir.join(format!("{prop}-{dg}.replay"));
@@ -74,6 +74,14 @@ impl Replay {
         }
         Some((prop, r, message))
     }
+}
+
+/// where evidence and replay files go (ABYV_OUT redirects them, e.g. while a seeded change is tried)
+pub fn out_root() -> PathBuf {
+    if let Ok(v) = std::env::var("ABYV_OUT") {
+        return PathBuf::from(v);
+    }
+    verif_root()
 }
 
 // ---------------------------------------------------------------------------------------------
@@ -271,7 +279,7 @@ impl Run {
             ("wall_s".into(), J::Num(wall)),
             ("violations".into(), J::Int(unlisted.len() as i64)),
         ]);
-        let dir = verif_root().join("evidence");
+        let dir = out_root().join("evidence");
         let _ = std::fs::create_dir_all(&dir);
         let path = dir.join(format!("{}.json", self.prop));
         if let Err(e) = std::fs::write(&path, ev.render()) {
